@@ -1,60 +1,62 @@
 """Reviewed discharges for panic-capable sites that no automatic condition covers (C12-D1).
 key = <function (closure ordinals dropped)>|<site signature, two levels deep, name-free>
-value = (class, reason, supporting fact checked by the machinery or None)
+value = (class, reason, supporting fact checked by the machinery or None, coarse signature)
+The coarse signature (operation + outermost constructor or type of each operand) re-identifies the site when the exact key
+has no site any more because the code moved to another function or its operands were renamed (r_panic.run, second pass).
 Sites that are NOT listed here and not discharged automatically are violations; the genuine ones on
 the pinned tree are listed in known_findings.jsonl instead (never here)."""
 
 TABLE = {
     'backends::rust::build_type::{closure}|index(upvar0,arg2.0)':
         ('DC-INVARIANT', 'the map indexed here was built two statements earlier by folding over the same vector whose '
-                         'elements supply the key, so every key is present', None),
+                         'elements supply the key, so every key is present', None, 'index(std::collections::HashMap<syn::Type, std,.0)'),
     'backends::rust::fully_qualified_type_ref_impl|rt::panic_fmt(Arguments::new(const,array))':
         ('DC-INVARIANT', 'Type::Unresolved never reaches the backend: it is constructed only for extern values in add_module and '
-                         'Module::resolve_extern_values replaces every one or fails the build', 'unresolved-constructed-only-in-add_module'),
+                         'Module::resolve_extern_values replaces every one or fails the build', 'unresolved-constructed-only-in-add_module', 'rt::panic_fmt(fmt(b"~received unresolved type ~~"))'),
     'backends::rust::hex_literal|Result::unwrap(from_str(deref(hint::must_use(…))))':
-        ('DC-INVARIANT', '"0x{:X}" of a usize is always a valid Rust integer literal', None),
+        ('DC-INVARIANT', '"0x{:X}" of a usize is always a valid Rust integer literal', None, 'Result::unwrap(from_str)'),
     'backends::rust::write_module|Overflow:Sub(Span::start(Error::span(…)).line,1)':
-        ('DC-INVARIANT', 'proc_macro2 (span-locations) line numbers are 1-based, also for call-site spans', None),
+        ('DC-INVARIANT', 'proc_macro2 (span-locations) line numbers are 1-based, also for call-site spans', None, 'Overflow:Sub(.line,1)'),
     'backends::rust::write_module|Option::unwrap(Iterator::nth(var:std::str::Lines<>,Sub(….line,1)))':
         ('DC-INVARIANT', 'the error span comes from parsing raw_output itself, so its line exists in raw_output; an end-of-input '
-                         'span reports line 1 and raw_output always starts with the two header lines', None),
+                         'span reports line 1 and raw_output always starts with the two header lines', None, 'Option::unwrap(Iterator::nth)'),
     "backends::rust::write_module|str::repeat(' ',Span::start(Error::span(…)).column)":
-        ('DC-COUNTER', 'column is bounded by the length of a line of the generated text', None),
+        ('DC-COUNTER', 'column is bounded by the length of a line of the generated text', None, "str::repeat(' ',.column)"),
     'semantic::function::build|rt::panic_fmt(Arguments::new(const,array))':
         ('DC-INVARIANT', 'body is None only if !is_vfunc (bool::then) and no address was given, which the preceding guard '
-                         'turns into Err (obligation G9 of C05 checks that guard)', 'G9'),
+                         'turns into Err (obligation G9 of C05 checks that guard)', 'G9', 'rt::panic_fmt(fmt(b"~function `~~` had no body assigned: ~~"))'),
     'semantic::semantic_state::SemanticState::add_file::{closure}|Overflow:Add(Span::start(Error::span(…)).column,1)':
-        ('DC-COUNTER', 'column is bounded by the length of the input text', None),
+        ('DC-COUNTER', 'column is bounded by the length of the input text', None, 'Overflow:Add(.column,1)'),
     'semantic::semantic_state::SemanticState::build|Option::unwrap(TypeRegistry::get_mut(arg1.type_registry,Some!(next(…))))':
         ('DC-INVARIANT', 'the same key was looked up successfully with get() earlier in the same iteration and the registry '
-                         'never removes entries', 'registry-never-removes'),
+                         'never removes entries', 'registry-never-removes', 'Option::unwrap(TypeRegistry::get_mut)'),
     "semantic::semantic_state::SemanticState::new|Result::expect(SemanticState::add_item(var:semantic::semantic_state::SemanticState,types::ItemDefinition{..}),'failed to add prede)":
         ('DC-INVARIANT', 'the root module is inserted immediately before and every predefined name is a one-segment literal, '
-                         'so parent() is the root path and get_mut(root) succeeds', None),
+                         'so parent() is the root path and get_mut(root) succeeds', None, "Result::expect(SemanticState::add_item,'failed to add predefine)"),
     'semantic::type_definition::build|Option::unwrap(SemanticState::get_module_for_path(arg1,arg2))':
         ('DC-INVARIANT', 'the same lookup succeeded at function entry (with_context(..)?) and modules are never removed',
-         'modules-never-removed'),
+         'modules-never-removed', 'Option::unwrap(SemanticState::get_module_for_path)'),
     'semantic::type_definition::build|Option::unwrap(Type::alignment(Some!(…).type_ref,arg1.type_registry))':
         ('DC-INVARIANT', 'every region returned by resolve_regions had Some(size) there; Type::size and Type::alignment are '
-                         'Some for exactly the same types (both follow resolved())', None),
+                         'Some for exactly the same types (both follow resolved())', None, 'Option::unwrap(Type::alignment)'),
     'semantic::type_definition::build|Option::unwrap(Region::size(Some!(next(…)),arg1.type_registry))':
-        ('DC-INVARIANT', 'every region returned by resolve_regions had Some(size) there (its last loop returns Ok(None) otherwise)', None),
+        ('DC-INVARIANT', 'every region returned by resolve_regions had Some(size) there (its last loop returns Ok(None) otherwise)', None, 'Option::unwrap(Region::size)'),
     'semantic::type_definition::build|RemainderByZero(Option::unwrap(Type::alignment(….type_ref,….type_registry)))':
         ('DC-INVARIANT', 'a field type\'s alignment is never 0: it is the pointer size, a built-in\'s max(size, 1), an extern type\'s validated align, '
-                         'or the validated/packed alignment of a resolved type', 'alignments-nonzero'),
+                         'or the validated/packed alignment of a resolved type', 'alignments-nonzero', 'RemainderByZero(Option::unwrap)'),
     'util::lcm::{closure}|DivisionByZero(util::gcd(arg2,arg3))':
-        ('DC-INVARIANT', 'gcd(acc, x) is 0 only for acc = x = 0; acc starts at 1 and every x is a non-zero alignment', 'alignments-nonzero'),
+        ('DC-INVARIANT', 'gcd(acc, x) is 0 only for acc = x = 0; acc starts at 1 and every x is a non-zero alignment', 'alignments-nonzero', 'DivisionByZero(util::gcd)'),
     'semantic::type_definition::resolve_regions|Option::unwrap(slice::last(deref(….regions)))':
         ('DC-INVARIANT', 'reached only when checked_sub(offset, last_address) is None, i.e. last_address > 0, so a region of '
-                         'non-zero size was pushed before (P1 pairs the push with the accumulator)', 'P1'),
+                         'non-zero size was pushed before (P1 pairs the push with the accumulator)', 'P1', 'Option::unwrap(slice::last)'),
     'semantic::type_definition::vftable::build_type|Iterator::sum(Iterator::map(slice::iter(deref(…)),closure))':
-        ('DC-COUNTER', 'sum of pointer_size over slots that were each allocated as a Function value; bounded by memory', None),
+        ('DC-COUNTER', 'sum of pointer_size over slots that were each allocated as a Function value; bounded by memory', None, 'Iterator::sum(Iterator::map)'),
     'semantic::type_definition::vftable::build_type::{closure}|Option::unwrap(Region::size(arg2,upvar0))':
         ('DC-INVARIANT', 'vftable regions are built by function_to_region only, whose type is Type::Function; its size is '
-                         'Some(pointer_size) unconditionally', 'function_to_region-makes-Function'),
+                         'Some(pointer_size) unconditionally', 'function_to_region-makes-Function', 'Option::unwrap(Region::size)'),
     "semantic::type_registry::TypeRegistry::padding_type|Option::unwrap(TypeRegistry::resolve_string(arg1,const,'u8'))":
         ('DC-INVARIANT', 'TypeRegistry::new is pub(crate) and called only by SemanticState::new, which registers `u8` before '
-                         'returning; entries are never removed', 'registry-new-only-in-semantic-state'),
+                         'returning; entries are never removed', 'registry-new-only-in-semantic-state', 'Option::unwrap(TypeRegistry::resolve_string)'),
 }
 
 # loops that are not driven by a finite std iterator, with the termination argument that was reviewed and the
